@@ -23,7 +23,11 @@ pub fn cptab(vals: &[&Value]) -> Value {
     }
     for k in ["query", "mutation", "subscription", "fragment", "on", "true", "false", "null", "schema", "scalar", "type",
               "interface", "union", "enum", "input", "directive", "extend", "implements", "repeatable", "!", "$", "&", "(",
-              ")", "...", ":", "=", "@", "[", "]", "{", "|", "}"] {
+              ")", "...", ":", "=", "@", "[", "]", "{", "|", "}", "Int", "Float", "String", "Boolean", "ID", "skip", "include",
+              "deprecated", "specifiedBy", "if", "reason", "url", "QUERY", "MUTATION", "SUBSCRIPTION", "FIELD",
+              "FRAGMENT_DEFINITION", "FRAGMENT_SPREAD", "INLINE_FRAGMENT", "VARIABLE_DEFINITION", "SCHEMA", "SCALAR", "OBJECT",
+              "FIELD_DEFINITION", "ARGUMENT_DEFINITION", "INTERFACE", "UNION", "ENUM", "ENUM_VALUE", "INPUT_OBJECT",
+              "INPUT_FIELD_DEFINITION"] {
         set.insert(k.to_string());
     }
     Value::Array(set.into_iter().map(|s| json!({"s": s, "cp": s.chars().map(|c| c as u32).collect::<Vec<_>>()})).collect())
